@@ -5,7 +5,11 @@ from . import ref
 
 
 def _bad(kind, enc):
-    e = lambda s: s.encode(enc)
+    def e(s):
+        try:
+            return s.encode(enc)
+        except UnicodeEncodeError:
+            return s.encode('latin_1')          # kinds with characters outside the codec are not used under that codec
     bm = ref.ref_bitmap
     return {
         'bad-mti': e('12X0') + bm([2]) + e('0512345'),
@@ -28,6 +32,7 @@ def _bad(kind, enc):
         'unknown-bit-primary-bitmap-only': e('1240') + bm([7], False) + e('0512345'),
         'bad-value-primary-bitmap-only': e('1240') + bm([4], False) + e('00000000ABCD'),
         'unknown-bit-no-low-elements': e('1240') + bm([9 + 2], False) + e('12345678'),
+        'undecodable-mti': b'\xff\xfe12' + bm([2]) + e('0512345'),
     }[kind]
 
 
